@@ -482,6 +482,15 @@ func c18HTTPOp(c *core.Ctx, e *hostile.Env, i int, op c18Op, user, pass string, 
 			c.Probe("model_says_authorized_node_says_unauthorized")
 		}
 	}
+	if allowed && code == 200 && strings.HasPrefix(op.Cmd, "execute_queue") {
+		// a queued write is acknowledged before it is applied: wait for it to land so
+		// that it is not mistaken for a side effect of the next request
+		if e.AwaitRow(fresh, 10*time.Second) {
+			c.Probe("queued_write_landed")
+		} else {
+			c.Probe("queued_write_not_landed_in_10s")
+		}
+	}
 	post := c18After(c, e, what, allowed, op.Cmd == "leader_post", pre, "http-side-effect/"+op.Cmd)
 	if post != nil && allowed && !c.Failed() {
 		post = c18Cleanup(c, e, op.Cmd, post)
